@@ -73,13 +73,14 @@ def run(tier, seed):
         ("hdr2", S("server", ["post"] if q else ["post", "post10"],
                    # (two Connection lines, keep-alive + close, are not generated: libevent honours only the first
                    #  one and keeps the connection open - a persistence matter the property text does not fix)
-                   ["cl3", "clows", "cllist", "te", "close", "exp100", "expx", "fold", "lf"],
+                   ["cl3", "clows", "cllist", "te", "close", "exp100", "expx", "fold", "lf"] if not q else
+                   ["cl3", "cllist", "te", "close", "exp100", "fold"],
                    ["none", "b3", "b5", "ch"], 2, 1), 3 if q else "all"),
         # chunked body grammar
         ("chunks", S("server", ["post", "ext", "put"], ["te", "xa"], BODY_OK, 1, 1), 10 if q else "all"),
         # pipelines of two requests
-        ("pipe2", S("server", ["get", "post"] if q else ["get", "post", "get10"], ["cl3", "te", "close"],
-                    ["none", "b3", "ch"] if q else ["none", "b3", "ch", "chtr"], 1 if q else 2, 2), 3 if q else 10),
+        ("pipe2", S("server", ["get", "post"] if q else ["get", "post", "get10"], ["cl3", "te", "close"] if q else ["cl3", "te", "close", "fold"],
+                    ["none", "b3", "ch"] if q else ["none", "b3", "ch", "chtr"], 1, 2), 3 if q else 10),
     ]
     total_fail = 0
     for name, c, single in corp:
